@@ -51,6 +51,12 @@ def entropy_bytes(t):
 
 def run(ctx):
     model = ctx.model
+    from .. import roles as _rolesmod
+    shared.r_callers(ctx, "R03.callers", _rolesmod.get(model).release_op, ("release",),
+                     "a live nameplate is retired although no claimant released it; the next "
+                     "claim of the name gets a fresh mailbox")
+    shared.r_collation(ctx, "R03.exact", ('nameplates', 'mailboxes'),
+                       'two different names share one nameplate row and one mailbox')
     shared.r_lookup(ctx, "R03.lookup", ('nameplates',))
     shared.r_durable(ctx, "R03.durable", ("chan",),
                      "after a restart the nameplate's mailbox binding is not the one the claimants were told")
